@@ -3,6 +3,8 @@ package rules
 import (
 	"fmt"
 	"go/token"
+	"go/types"
+	"sort"
 	"strings"
 
 	"golang.org/x/tools/go/ssa"
@@ -15,7 +17,7 @@ func init() {
 		Explanation: "Binding of keys to listeners in the configuration start code, as value-provenance facts with loop-iteration identity: (BIND) every serving goroutine pairs a listener and a service that come from the same iteration of the configuration loop — " +
 			"the listener address and the key material given to that service derive from the same range element (the same services entry, or the same (port, list) tuple of the legacy map), the service is created inside the loop and the listener in the same or a nested loop; " +
 			"(NOSHARE) every key list is created per iteration and reaches exactly one WithCiphers; (DEDUP) the per-service key list is built by a forward range over the entry's keys that skips a key exactly when (cipher, secret) is already in a map created in that call, " +
-			"pushes in order (first ID wins), records the pair after pushing, and builds each entry from the ID, cipher and secret of the same key element; the legacy map groups each key under its own port; (SEARCH) the per-key trial decryption tries every key of the list with that key's own header size.",
+			"pushes in order (first ID wins), records the pair after pushing, and builds each entry from the ID, cipher and secret of the same key element; the legacy map groups each key under its own port; (SEARCH) the per-key trial decryption tries every key of the list with that key's own header size; (CLOSEDGUARD, HANDLECLOSE) a released listener handle of an old generation excludes the closed state before competing for the shared socket and its Close always closes the close channel, so old keys stop working on a retained address.",
 		NotDecided: "YAML decoding, what authentication then does at run time (C01/C03).",
 	})
 }
@@ -28,13 +30,18 @@ func runC09(c *Ctx) {
 	ruleBind(c, a)
 	ruleDedup(c, a)
 	ruleSearch(c, "SEARCH", 2)
+	// "exactly": after a reload that keeps an address, the handle of the old generation must stop taking connections and
+	// datagrams of the shared socket the moment it is released, or the old generation's keys keep working there
+	for _, m := range findMultiListeners(c, "CLOSEDGUARD") {
+		ruleClosedGuard(c, m)
+	}
 }
 
 // rangeSources walks backwards from v and collects the loop-iteration sources it derives from: IndexAddr instructions whose
 // index is a range induction variable, and Next instructions of map ranges. It looks through cells, struct copies, field
 // loads, conversions, Sprintf/String calls and varargs arrays.
-func rangeSources(c *Ctx, v ssa.Value) map[ssa.Instruction]bool {
-	out := map[ssa.Instruction]bool{}
+func rangeSources(c *Ctx, v ssa.Value, a *reloadAnchors) map[ssa.Value]bool {
+	out := map[ssa.Value]bool{}
 	seen := map[ssa.Value]bool{}
 	var walk func(v ssa.Value, d int)
 	walk = func(v ssa.Value, d int) {
@@ -133,6 +140,9 @@ func rangeSources(c *Ctx, v ssa.Value) map[ssa.Instruction]bool {
 		case *ssa.Parameter:
 			// helper functions called per iteration: the parameter derives from the arguments at the call sites
 			fn := x.Parent()
+			if a != nil && entryParam(x, a) {
+				out[x] = true // one activation of a per-entry helper: the parameter itself identifies the entry
+			}
 			idx := -1
 			for i, q := range fn.Params {
 				if q == x {
@@ -161,6 +171,24 @@ func rangeSources(c *Ctx, v ssa.Value) map[ssa.Instruction]bool {
 	}
 	walk(v, 0)
 	return out
+}
+
+// entryParam: a parameter of a start-code helper that can stand for "the configuration entry of this activation": not the
+// receiver/server, not the listener set, not a function-typed or interface-typed value.
+func entryParam(x *ssa.Parameter, a *reloadAnchors) bool {
+	fn := x.Parent()
+	if fn == a.startFn || fn == a.owner || fn == a.runCfg || !a.startRegion[fn] {
+		return false
+	}
+	tn := eng.TypeName(x.Type())
+	if tn == a.lsType || tn == mainPkg+".OutlineServer" {
+		return false
+	}
+	switch x.Type().Underlying().(type) {
+	case *types.Signature, *types.Interface, *types.Chan:
+		return false
+	}
+	return true
 }
 
 func isRangeIndex(v ssa.Value) bool {
@@ -203,9 +231,198 @@ func originCall(c *Ctx, v ssa.Value, name ...string) *ssa.Call {
 	return nil
 }
 
-func intersects(a, b map[ssa.Instruction]bool) bool {
+func srcNames(c *Ctx, m map[ssa.Value]bool) string {
+	var out []string
+	for v := range m {
+		pos := ""
+		if ins, ok := v.(ssa.Instruction); ok {
+			pos = c.P.IPos(ins)
+		} else {
+			pos = c.P.Pos(v.Pos())
+		}
+		out = append(out, valStr(c.P, v)+"@"+pos)
+	}
+	sort.Strings(out)
+	return strings.Join(out, ", ")
+}
+
+func intersects(a, b map[ssa.Value]bool) bool {
 	for k := range a {
 		if b[k] {
+			return true
+		}
+	}
+	return false
+}
+
+// bindState is one calling context of a serving goroutine: the values of interest expressed in terms of frame, lifted
+// through helper parameters towards the start code until the service, the listener and the key list are all created in view.
+type bindState struct {
+	frame             *ssa.Function
+	svc, ln, list     ssa.Value       // still to be resolved (nil once resolved)
+	addr, keyInput    ssa.Value       // resolved operands, in frame terms where they were bare parameters
+	svcCall, lnCall   *ssa.Call       // NewShadowsocksService / Listen* calls
+	mk                *ssa.Call       // key-list creation
+	svcAt, lnAt, goAt ssa.Instruction // where, in frame, each of these happens (the instruction itself or the call leading to it)
+	mkAt              ssa.Instruction
+	g                 *ssa.Go
+	lnLoops, mkLoops  []loopRef // loops (of any frame passed through) around the listening / the key-list creation
+	stale             string    // a value that may come from an earlier loop iteration
+}
+
+// bareParam: v is (a conversion of) a parameter of f; returns its index.
+func bareParam(c *Ctx, f *ssa.Function, v ssa.Value) int {
+	os := c.P.Origins(v, eng.Plain)
+	if len(os) != 1 {
+		return -1
+	}
+	pr, ok := os[0].(*ssa.Parameter)
+	if !ok || pr.Parent() != f {
+		return -1
+	}
+	for i, q := range f.Params {
+		if q == pr {
+			return i
+		}
+	}
+	return -1
+}
+
+// withCiphersArg: the key list handed to a NewShadowsocksService call through WithCiphers.
+func withCiphersArg(c *Ctx, svcCall *ssa.Call) *ssa.Call {
+	sl, ok := svcCall.Call.Args[0].(*ssa.Slice)
+	if !ok {
+		return nil
+	}
+	arr, ok := sl.X.(*ssa.Alloc)
+	if !ok {
+		return nil
+	}
+	var wc *ssa.Call
+	for _, r := range *arr.Referrers() {
+		if ia, ok := r.(*ssa.IndexAddr); ok {
+			for _, rr := range *ia.Referrers() {
+				if st, ok := rr.(*ssa.Store); ok {
+					if cc := originCall(c, st.Val, "service.WithCiphers"); cc != nil {
+						wc = cc
+					}
+				}
+			}
+		}
+	}
+	return wc
+}
+
+// carriedAcrossIterations: some def-use path from v back to the call def goes around a loop that contains def — through a
+// header phi of that loop, or through a variable that lives outside the loop and is not definitely (re)assigned before the
+// use — so v may hold the result of an EARLIER iteration's def.
+func carriedAcrossIterations(c *Ctx, v ssa.Value, def *ssa.Call) bool {
+	fn := def.Parent()
+	var around []*eng.Loop
+	for _, l := range eng.Loops(fn) {
+		if l.Body[def.Block()] {
+			around = append(around, l)
+		}
+	}
+	if len(around) == 0 {
+		return false
+	}
+	type key struct {
+		v ssa.Value
+		x bool
+	}
+	seen := map[key]bool{}
+	carried := false
+	var walk func(v ssa.Value, crossed bool, d int)
+	walk = func(v ssa.Value, crossed bool, d int) {
+		if v == nil || seen[key{v, crossed}] || d > 60 || carried {
+			return
+		}
+		seen[key{v, crossed}] = true
+		if cc, _, ok := eng.AsResult(v); ok && cc == def {
+			if crossed {
+				carried = true
+			}
+			return
+		}
+		switch x := v.(type) {
+		case *ssa.Phi:
+			hdr := false
+			for _, l := range around {
+				if x.Block() == l.Header && x.Parent() == fn {
+					hdr = true
+				}
+			}
+			for _, e := range x.Edges {
+				walk(e, crossed || hdr, d+1)
+			}
+		case *ssa.Extract:
+			walk(x.Tuple, crossed, d+1)
+		case *ssa.UnOp:
+			if x.Op != token.MUL {
+				walk(x.X, crossed, d+1)
+				return
+			}
+			cell := eng.CellRoot(x.X)
+			if cell == nil {
+				walk(x.X, crossed, d+1)
+				return
+			}
+			if rv := c.P.ReachingStore(x, x); rv != nil {
+				walk(rv, crossed, d+1)
+				return
+			}
+			outside := cell.Parent() != fn
+			for _, l := range around {
+				if cell.Parent() == fn && !l.Body[cell.Block()] {
+					outside = true
+				}
+			}
+			for _, st := range c.P.CellStores(cell) {
+				walk(st.Val, crossed || outside, d+1)
+			}
+		case *ssa.ChangeType:
+			walk(x.X, crossed, d+1)
+		case *ssa.ChangeInterface:
+			walk(x.X, crossed, d+1)
+		case *ssa.MakeInterface:
+			walk(x.X, crossed, d+1)
+		case *ssa.TypeAssert:
+			walk(x.X, crossed, d+1)
+		case *ssa.MakeClosure:
+			for _, b := range x.Bindings {
+				walk(b, crossed, d+1)
+			}
+		}
+	}
+	walk(v, false, 0)
+	return carried
+}
+
+// loopRef is a loop of some frame that encloses the listening / the key-list creation of one serving context.
+type loopRef struct {
+	fn *ssa.Function
+	l  *eng.Loop
+}
+
+func enclosing(at ssa.Instruction) []loopRef {
+	var out []loopRef
+	for _, l := range eng.Loops(at.Parent()) {
+		if l.Body[at.Block()] {
+			out = append(out, loopRef{at.Parent(), l})
+		}
+	}
+	return out
+}
+
+// variesWith: some range source of the set belongs to the loop (its element changes with every iteration of it).
+func variesWith(src map[ssa.Value]bool, lr loopRef) bool {
+	for v := range src {
+		ins, ok := v.(ssa.Instruction)
+		if !ok || ins.Parent() != lr.fn {
+			continue
+		}
+		if lr.l.Body[ins.Block()] {
 			return true
 		}
 	}
@@ -216,20 +433,210 @@ func intersects(a, b map[ssa.Instruction]bool) bool {
 func ruleBind(c *Ctx, a *reloadAnchors) {
 	p := c.P
 	s := a.startFn
-	sreg := c.NewRegion(s, 3, func(h *ssa.Function) bool {
+	sreg := c.NewRegion(s, 4, func(h *ssa.Function) bool {
 		return eng.PkgPathOf(h) != eng.Mod+"/"+mainPkg || (h.Signature.Recv() != nil && eng.TypeName(h.Signature.Recv().Type()) == a.lsType)
 	})
+	inReg := sreg.In
+	a.startRegion = sreg.In
 	lsT := "(*" + a.lsType + ")."
-	nGo := 0
-	listenUses := map[*ssa.Call]int{}
+	nCtx := 0
+	listenUses := map[*ssa.Call]map[*ssa.Go]bool{}
+	var finish func(st bindState)
+	var step func(st bindState, depth int)
+	step = func(st bindState, depth int) {
+		f := st.frame
+		// resolve what can be resolved in this frame
+		if st.ln != nil {
+			if lc := originCall(c, st.ln, lsT+"ListenStream", lsT+"ListenPacket"); lc != nil {
+				if carriedAcrossIterations(c, st.ln, lc) {
+					st.stale = "listener"
+				}
+				st.lnCall, st.addr, st.lnAt, st.ln = lc, lc.Call.Args[1], lc, nil
+				st.lnLoops = append(st.lnLoops, enclosing(lc)...)
+			}
+		}
+		if st.svc != nil {
+			if sc := originCall(c, st.svc, "service.NewShadowsocksService"); sc != nil {
+				if carriedAcrossIterations(c, st.svc, sc) {
+					st.stale = "service"
+				}
+				st.svcCall, st.svcAt, st.svc = sc, sc, nil
+				if wc := withCiphersArg(c, sc); wc != nil {
+					st.list = wc.Call.Args[0]
+				} else {
+					c.CheckAt("BIND", fmt.Sprintf("%s:serve#%d:service-gets-a-key-list", short(s), nCtx+1), sc, false, "the service is created without WithCiphers")
+					nCtx++
+					return
+				}
+			} else {
+				// a helper of the start code that returns the service it creates
+				for _, o := range p.Origins(st.svc, eng.Plain) {
+					hc, _, ok := eng.AsResult(o)
+					if !ok {
+						continue
+					}
+					h := hc.Call.StaticCallee()
+					if h == nil || !inReg[h] {
+						continue
+					}
+					var inner *ssa.Call
+					for _, r := range eng.Returns(h) {
+						if len(r.Results) > 0 {
+							if sc := originCall(c, r.Results[0], "service.NewShadowsocksService"); sc != nil {
+								inner = sc
+							}
+						}
+					}
+					if inner == nil {
+						continue
+					}
+					wc := withCiphersArg(c, inner)
+					if wc == nil {
+						continue
+					}
+					if carriedAcrossIterations(c, st.svc, hc) {
+						st.stale = "service"
+					}
+					st.svcCall, st.svcAt, st.svc = inner, hc, nil
+					if i := bareParam(c, h, wc.Call.Args[0]); i >= 0 && i < len(hc.Call.Args) {
+						st.list = hc.Call.Args[i]
+					} else {
+						st.list = wc.Call.Args[0]
+					}
+				}
+			}
+		}
+		if st.svc == nil && st.list != nil {
+			if mk := originCall(c, st.list, "service.NewCipherList", mainPkg+".newCipherListFromConfig"); mk != nil {
+				if carriedAcrossIterations(c, st.list, mk) {
+					st.stale = "key list"
+				}
+				st.mk, st.mkAt, st.list = mk, mk, nil
+				st.mkLoops = append(st.mkLoops, enclosing(mk)...)
+				if eng.CalleeName(&mk.Call) == mainPkg+".newCipherListFromConfig" {
+					st.keyInput = mk.Call.Args[0]
+				} else {
+					for _, r := range *mk.Referrers() {
+						if uc, ok := r.(*ssa.Call); ok && uc.Call.IsInvoke() && uc.Call.Method.Name() == "Update" {
+							st.keyInput = uc.Call.Args[0]
+						}
+					}
+				}
+			}
+		}
+		if st.ln == nil && st.svc == nil && st.list == nil {
+			finish(st)
+			return
+		}
+		// lift through the parameters of this frame
+		key := fmt.Sprintf("%s:serve#%d", short(s), nCtx+1)
+		pend := map[string]ssa.Value{"listener": st.ln, "service": st.svc, "key list": st.list}
+		idx := map[string]int{}
+		for what, v := range pend {
+			if v == nil {
+				continue
+			}
+			i := bareParam(c, f, v)
+			if i < 0 || depth >= 4 || f == s {
+				nCtx++
+				c.CheckAt("BIND", key+":service-and-listener-created-here", st.g, false, "the "+what+" served by this goroutine is not created by NewShadowsocksService / the listener set / NewCipherList in the start code")
+				return
+			}
+			idx[what] = i
+		}
+		var sites []ssa.CallInstruction
+		for _, cs := range p.CallSitesOf(f) {
+			ci := cs.Ins.(ssa.CallInstruction)
+			if inReg[cs.Fn] && ci.Common().StaticCallee() == f {
+				sites = append(sites, ci)
+			}
+		}
+		if len(sites) == 0 {
+			nCtx++
+			c.Undecided("BIND", key+":callers", p.IPos(st.g), "the helper "+short(f)+" that serves a listener has no static call site in the start code")
+			return
+		}
+		for _, ci := range sites {
+			n := st
+			n.frame = ci.Parent()
+			args := ci.Common().Args
+			sub := func(v ssa.Value) ssa.Value {
+				if v == nil {
+					return nil
+				}
+				if i := bareParam(c, f, v); i >= 0 && i < len(args) {
+					return args[i]
+				}
+				return v
+			}
+			n.ln, n.svc, n.list, n.addr, n.keyInput = sub(st.ln), sub(st.svc), sub(st.list), sub(st.addr), sub(st.keyInput)
+			if st.svcAt != nil {
+				n.svcAt = ci
+			}
+			if st.lnAt != nil {
+				n.lnAt = ci
+			}
+			if st.mkAt != nil {
+				n.mkAt = ci
+				n.mkLoops = append(append([]loopRef{}, st.mkLoops...), enclosing(ci)...)
+			}
+			if st.lnAt != nil {
+				n.lnLoops = append(append([]loopRef{}, st.lnLoops...), enclosing(ci)...)
+			}
+			n.goAt = ci
+			step(n, depth+1)
+		}
+	}
+	finish = func(st bindState) {
+		nCtx++
+		key := fmt.Sprintf("%s:serve#%d", short(s), nCtx)
+		g := st.g
+		if listenUses[st.lnCall] == nil {
+			listenUses[st.lnCall] = map[*ssa.Go]bool{}
+		}
+		listenUses[st.lnCall][g] = true
+		// stream accept goes with stream handle, packets with packets
+		if eng.CalleeName(&g.Call) == "service.StreamServe" {
+			c.CheckAt("BIND", key+":stream-listener-for-stream-serving", g, strings.HasSuffix(eng.CalleeName(&st.lnCall.Call), "ListenStream"), "StreamServe is fed by something other than a stream listener")
+		}
+		// same iteration / activation: in the frame where service, listener and go come together, when the service is created inside
+		// a loop the listener and the go are inside the same loop (a helper called once per entry is one activation per entry; the
+		// provenance check below covers what flows into it)
+		loops := eng.Loops(st.frame)
+		ls := eng.InnermostLoop(loops, st.svcAt.Block())
+		okIter := ls == nil || (ls.Body[st.lnAt.Block()] && ls.Body[st.goAt.Block()])
+		c.CheckAt("BIND", key+":same-iteration", g, okIter, "the service and the listener served together are not created in the same iteration of the configuration loop (e.g. the service is created once outside the loop): keys of one entry would authenticate on another entry's listeners")
+		lm := eng.InnermostLoop(loops, st.mkAt.Block())
+		c.CheckAt("NOSHARE", key+":key-list-created-per-iteration", st.mk, lm == ls, "the key list is not created in the same loop iteration as the service that uses it: several services would share one list")
+		c.CheckAt("BIND", key+":created-in-this-iteration", g, st.stale == "", "the "+st.stale+" served here may be the one created in an earlier iteration of the configuration loop (it is carried in a variable that outlives the iteration): keys of one entry would serve another entry's listeners")
+		if st.keyInput == nil {
+			c.CheckAt("BIND", key+":key-list-filled", st.mk, false, "the key list given to the service is never filled")
+			return
+		}
+		ks := rangeSources(c, st.keyInput, a)
+		as := rangeSources(c, st.addr, a)
+		okA, okK := true, true
+		for _, lr := range st.lnLoops {
+			if !variesWith(as, lr) {
+				okA = false
+			}
+		}
+		for _, lr := range st.mkLoops {
+			if !variesWith(ks, lr) {
+				okK = false
+			}
+		}
+		c.CheckAt("BIND", key+":address-of-this-listener-entry", st.lnCall, okA, "the address listened on does not change with every loop around the listening (e.g. always the first listener of the service): some configured listener is never bound to its keys")
+		c.CheckAt("BIND", key+":keys-of-this-service-entry", st.mk, okK, "the keys of the service do not change with every loop around its creation (e.g. always the first service's keys)")
+		c.CheckAt("BIND", key+":keys-and-address-from-the-same-entry", g, len(ks) > 0 && len(as) > 0 && intersects(ks, as),
+			fmt.Sprintf("keys from %s; address from %s||the keys given to the service (%d range sources) and the address it listens on (%d range sources) do not derive from the same configuration entry of the same loop iteration", srcNames(c, ks), srcNames(c, as), len(ks), len(as)))
+	}
 	for _, cl := range sreg.Calls() {
 		g, ok := cl.(*ssa.Go)
 		if !ok {
 			continue
 		}
-		loops := eng.Loops(g.Parent())
-		nGo++
-		key := fmt.Sprintf("%s:serve#%d", short(s), nGo)
+		key := fmt.Sprintf("%s:serve#%d", short(s), nCtx+1)
 		var svcVal, lnVal ssa.Value
 		switch {
 		case eng.CalleeName(&g.Call) == "service.StreamServe":
@@ -239,84 +646,20 @@ func ruleBind(c *Ctx, a *reloadAnchors) {
 			svcVal = g.Call.Value
 			lnVal = g.Call.Args[0]
 		default:
+			nCtx++
 			c.CheckAt("BIND", key+":recognised-serving-call", g, false, "a goroutine is started in the configuration start code that is neither StreamServe(listener.AcceptStream, service.HandleStream) nor service.HandlePacket(conn)")
 			continue
 		}
 		if svcVal == nil || lnVal == nil {
+			nCtx++
 			c.Undecided("BIND", key+":operands", p.IPos(g), "cannot identify the listener and service operands of the serving goroutine")
 			continue
 		}
-		svcCall := originCall(c, svcVal, "service.NewShadowsocksService")
-		lnCall := originCall(c, lnVal, lsT+"ListenStream", lsT+"ListenPacket")
-		if svcCall == nil || lnCall == nil {
-			c.CheckAt("BIND", key+":service-and-listener-created-here", g, false, "the service or the listener served by this goroutine is not created by NewShadowsocksService / the listener set in the start code")
-			continue
-		}
-		listenUses[lnCall]++
-		// stream accept goes with stream handle, packets with packets
-		if eng.CalleeName(&g.Call) == "service.StreamServe" {
-			c.CheckAt("BIND", key+":stream-listener-for-stream-serving", g, strings.HasSuffix(eng.CalleeName(&lnCall.Call), "ListenStream"), "StreamServe is fed by something other than a stream listener")
-		}
-		// same iteration / activation: service, listener and go live in one function; when the service is created inside a loop of
-		// that function, the listener and the go are inside the same loop (the provenance check below covers the case where a
-		// helper is called once per configuration entry)
-		sameFn := svcCall.Parent() == g.Parent() && lnCall.Parent() == g.Parent()
-		ls := eng.InnermostLoop(loops, svcCall.Block())
-		okIter := sameFn && (ls == nil || (ls.Body[lnCall.Block()] && ls.Body[g.Block()]))
-		c.CheckAt("BIND", key+":same-iteration", g, okIter, "the service and the listener served together are not created in the same iteration of the configuration loop (e.g. the service is created once outside the loop): keys of one entry would authenticate on another entry's listeners")
-		// cipher list of the service
-		var wc *ssa.Call
-		if sl, ok := svcCall.Call.Args[0].(*ssa.Slice); ok {
-			if arr, ok := sl.X.(*ssa.Alloc); ok {
-				for _, r := range *arr.Referrers() {
-					if ia, ok := r.(*ssa.IndexAddr); ok {
-						for _, rr := range *ia.Referrers() {
-							if st, ok := rr.(*ssa.Store); ok {
-								if cc := originCall(c, st.Val, "service.WithCiphers"); cc != nil {
-									wc = cc
-								}
-							}
-						}
-					}
-				}
-			}
-		}
-		if wc == nil {
-			c.CheckAt("BIND", key+":service-gets-a-key-list", svcCall, false, "the service is created without WithCiphers")
-			continue
-		}
-		listVal := wc.Call.Args[0]
-		mk := originCall(c, listVal, "service.NewCipherList", mainPkg+".newCipherListFromConfig")
-		if mk == nil {
-			c.CheckAt("BIND", key+":key-list-built-here", wc, false, "the key list given to the service is not built by NewCipherList / newCipherListFromConfig in the start code")
-			continue
-		}
-		lm := eng.InnermostLoop(loops, mk.Block())
-		c.CheckAt("NOSHARE", key+":key-list-created-per-iteration", mk, mk.Parent() == svcCall.Parent() && lm == ls, "the key list is not created in the same loop iteration as the service that uses it: several services would share one list")
-		// key material input
-		var keyInput ssa.Value
-		if eng.CalleeName(&mk.Call) == mainPkg+".newCipherListFromConfig" {
-			keyInput = mk.Call.Args[0]
-		} else {
-			// NewCipherList().Update(list)
-			for _, r := range *mk.Referrers() {
-				if uc, ok := r.(*ssa.Call); ok && uc.Call.IsInvoke() && uc.Call.Method.Name() == "Update" {
-					keyInput = uc.Call.Args[0]
-				}
-			}
-		}
-		if keyInput == nil {
-			c.CheckAt("BIND", key+":key-list-filled", mk, false, "the key list given to the service is never filled")
-			continue
-		}
-		ks := rangeSources(c, keyInput)
-		as := rangeSources(c, lnCall.Call.Args[1])
-		c.CheckAt("BIND", key+":keys-and-address-from-the-same-entry", g, len(ks) > 0 && len(as) > 0 && intersects(ks, as),
-			fmt.Sprintf("the keys given to the service (%d range sources) and the address it listens on (%d range sources) do not derive from the same configuration entry of the same loop iteration", len(ks), len(as)))
+		step(bindState{frame: g.Parent(), svc: svcVal, ln: lnVal, goAt: g, g: g}, 0)
 	}
-	c.Floor("BIND", "serving goroutines in the start code", nGo, 4)
-	for lc, k := range listenUses {
-		c.CheckAt("BIND", short(s)+":listener-served-once", lc, k == 1, fmt.Sprintf("one listener is served by %d goroutines", k))
+	c.Floor("BIND", "serving contexts in the start code", nCtx, 4)
+	for lc, gs := range listenUses {
+		c.CheckAt("BIND", short(s)+":listener-served-once", lc, len(gs) == 1, fmt.Sprintf("one listener is served by %d goroutines", len(gs)))
 	}
 	// NOSHARE: every key-list creation result reaches exactly one WithCiphers
 	for _, cl := range sreg.Calls() {
@@ -344,7 +687,7 @@ func ruleBind(c *Ctx, a *reloadAnchors) {
 		if !ok || !strings.Contains(mu.Map.Type().String(), "container/list.List") {
 			return
 		}
-		ksrc := rangeSources(c, mu.Key)
+		ksrc := rangeSources(c, mu.Key, nil)
 		c.CheckAt("BIND", short(s)+":legacy-list-filed-under-its-own-port", mu, len(ksrc) > 0, "the legacy per-port list is not filed under the port of the key being processed")
 	})
 	dedupFn := p.Fn(mainPkg + ".newCipherListFromConfig")
@@ -354,8 +697,8 @@ func ruleBind(c *Ctx, a *reloadAnchors) {
 			continue
 		}
 		// the list pushed to was looked up with the port of the same element the entry is built from
-		ls := rangeSources(c, call.Call.Args[0])
-		es := rangeSources(c, call.Call.Args[1])
+		ls := rangeSources(c, call.Call.Args[0], nil)
+		es := rangeSources(c, call.Call.Args[1], nil)
 		c.CheckAt("BIND", short(s)+":legacy-key-pushed-to-its-own-port-list", call, len(ls) > 0 && intersects(ls, es), "a legacy key is appended to a list that was not selected by the port of that same key")
 	}
 }
@@ -507,7 +850,7 @@ func ruleDedup(c *Ctx, a *reloadAnchors) {
 	okKey, _ := p.AllFrom(mkEntry.Call.Args[1], eng.Plain, func(v ssa.Value) bool { return eng.ResultOf(v, newKey, 0) })
 	nk0, nk1 := elemFields(newKey.Call.Args[0]), elemFields(newKey.Call.Args[1])
 	c.CheckAt("DEDUP", key+":entry-built-from-this-key", mkEntry, okID && okSec && okKey && nk0["Cipher"] && nk1["Secret"], "the entry pushed is not MakeCipherEntry(key.ID, NewEncryptionKey(key.Cipher, key.Secret), key.Secret) of the key being processed")
-	same := intersects(rangeSources(c, lk.Index), rangeSources(c, mkEntry.Call.Args[0]))
+	same := intersects(rangeSources(c, lk.Index, nil), rangeSources(c, mkEntry.Call.Args[0], nil))
 	c.CheckAt("DEDUP", key+":test-and-entry-use-the-same-key-element", mkEntry, same, "the duplicate test and the entry use different key elements")
 	okPush, _ := p.AllFrom(push.Call.Args[1], eng.OriginOpts{ThroughConvert: true}, func(v ssa.Value) bool {
 		al, ok := v.(*ssa.Alloc)
